@@ -341,3 +341,46 @@ Qed.
 Example preconds_for_grad_input_rank1 :
   preconds_for_grad 2 [7] 1 0 (count_true (should_precondition_dims [[5]] 2)) = Some [7].
 Proof. reflexivity. Qed.
+
+(* ---------- tensor level: BlockPartitioner.merge_partitions (partition t) = t ---------- *)
+From Precond Require Import Base.Tensor C06.TensorProofs.
+
+Lemma dim_sizes_nonneg b d : 1 <= d -> Forall (fun s => 0 <= s) (dim_sizes b d).
+Proof.
+  intro Hd. destruct (Z_lt_dec 0 b) as [Hb|Hb]; [destruct (Z_lt_dec b d) as [Hbd|Hbd]|].
+  - destruct (dim_sizes_props b d Hb Hbd) as [H _]. eapply Forall_impl; [|exact H]. intros a Ha. cbv beta in Ha. lia.
+  - rewrite dim_sizes_small by lia. constructor; [lia|constructor].
+  - rewrite dim_sizes_small by lia. constructor; [lia|constructor].
+Qed.
+
+Lemma sumn_to_nat l : Forall (fun s => 0 <= s) l -> sumn (map Z.to_nat l) = Z.to_nat (sum_z l).
+Proof.
+  induction 1 as [|x l Hx Hl IH]; [reflexivity|].
+  cbn [map sumn]. rewrite sum_z_cons, IH.
+  assert (0 <= sum_z l).
+  { clear - Hl. induction Hl as [|y l Hy Hl IH]; [rewrite sum_z_nil; lia | rewrite sum_z_cons; lia]. }
+  lia.
+Qed.
+
+Definition nat_split_sizes (shape : list Z) (b : Z) : list (list nat) :=
+  map (map Z.to_nat) (snd (block_partitioner_init shape b)).
+
+Theorem partition_merge_id {A} (shape : list Z) (b : Z) (data : list A) :
+  Forall (fun d => 1 <= d) shape ->
+  length data = prodn (map Z.to_nat shape) ->
+  let ss := nat_split_sizes shape b in
+  let t := mkT (map Z.to_nat shape) data in
+  merge_partitions ss (partition ss t) = t.
+Proof.
+  intros Hsh Hlen ss t. apply merge_partition_id.
+  - exact Hlen.
+  - unfold ss, nat_split_sizes. rewrite split_sizes_spec. cbn [t_shape t]. rewrite !map_length. reflexivity.
+  - unfold ss, nat_split_sizes. rewrite split_sizes_spec. cbn [t_shape t]. rewrite map_map.
+    rewrite map_map. clear Hlen t ss data.
+    induction Hsh as [|d l Hd Hl IH]; [reflexivity|]. cbn [map]. rewrite IH. f_equal.
+    rewrite sumn_to_nat by (apply dim_sizes_nonneg; exact Hd). f_equal.
+    destruct (Z_lt_dec 0 b) as [Hb|Hb]; [destruct (Z_lt_dec b d) as [Hbd|Hbd]|].
+    + apply dim_sizes_props; assumption.
+    + rewrite dim_sizes_small by lia. rewrite sum_z_cons, sum_z_nil. lia.
+    + rewrite dim_sizes_small by lia. rewrite sum_z_cons, sum_z_nil. lia.
+Qed.
